@@ -63,6 +63,28 @@ func c12ReadFaulty(fc *fileCase, mode string) (got []byte, err error, perr any) 
 	return
 }
 
+// c12SeekReadFaulty opens the file lazily, seeks to off and reads to the end (readAllStream); a failing Seek counts as the
+// operation's error.
+func c12SeekReadFaulty(fc *fileCase, off int64) (got []byte, err error, perr any) {
+	perr, _ = safe(func() {
+		var rn datamodel.Node
+		rn, err = loadReified(fc.St.LinkSystem(), fc.Root, "unixfs")
+		if err != nil {
+			return
+		}
+		var rs io.ReadSeeker
+		rs, err = rn.(datamodel.LargeBytesNode).AsLargeBytes()
+		if err != nil {
+			return
+		}
+		if _, err = rs.Seek(off, io.SeekStart); err != nil {
+			return
+		}
+		got, err = readAllStream(rs, 5)
+	})
+	return
+}
+
 const c12FileRule = "case = generated multi-block file DAG; for that DAG EVERY single non-root block is made unavailable in turn (not-found and i/o error kinds), plus drawn subsets of 2..5 blocks, plus 'the k-th load fails' for every k of the fault-free run; " +
 	"oracle = independent span model: a sequential read must deliver exactly content[:start of the first missing span] and then a non-EOF error that carries the injected fault; preload reification must fail; " +
 	"non-trivial = the missing block is an interior node or a leaf that is neither first nor last; distinct by (writer, depth, leaves, fault kind, position class)"
@@ -138,6 +160,27 @@ func TestC12_P_FileFaults(t *testing.T) {
 					kind = "ioerr"
 				}
 				check(fmt.Sprintf("block #%d (%s) unavailable (%s)", i+1, pos, kind), firstStart[c], pos+"/"+kind, pos == "interior-node" || pos == "middle-leaf")
+				// ... and a read positioned INSIDE the missing block's span (the reader then reaches the block by seeking into
+				// it, not by reading up to it): nothing can be delivered, and the load error has to come back - for every
+				// error value, the bare ones included
+				if node.End-node.Start >= 2 {
+					for _, bare := range []error{nil, bareFaults[(i+1)%len(bareFaults)], io.EOF} {
+						if bare != nil && !io_ {
+							continue
+						}
+						fc.St.MissingBare = bare
+						off := node.Start + 1 + int64(i)%(node.End-node.Start-1)
+						got, err, p := c12SeekReadFaulty(fc, off)
+						fc.St.MissingBare = nil
+						if p != nil {
+							t.Fatalf("C12 [%s] block #%d (%s) unavailable, read positioned at %d inside it: panic %v", fc.Desc, i+1, pos, off, p)
+						}
+						if err == nil || err == io.EOF || len(got) != 0 {
+							t.Fatalf("C12 [%s] block #%d (%s, span %d..%d) unavailable (%s, bare value %v): a read positioned at %d, inside the span, delivered %d bytes and ended with err=%v; want no bytes and the load error", fc.Desc, i+1, pos, node.Start, node.End, kind, bare, off, len(got), err)
+						}
+						ev.Count("positioned-read-into-missing-span", 1)
+					}
+				}
 				if io_ {
 					// ... and with a bare well-known error value, as a thin storage adapter passes it through (io.EOF above all:
 					// to a reader that is the regular end of a stream)
